@@ -1,0 +1,16 @@
+//go:build verif
+// +build verif
+
+package net
+
+import (
+	"com.tuntun.rangers/node/src/consensus/model"
+	"com.tuntun.rangers/node/src/middleware/log"
+	middleware_pb "com.tuntun.rangers/node/src/middleware/pb"
+)
+
+// VerifSetLogger replaces the package-level logger (accessor only).
+func VerifSetLogger(l log.Logger) { logger = l }
+
+// VerifPbToSignData exports pbToSignData unchanged for the C09 totality check.
+func VerifPbToSignData(s *middleware_pb.SignData) *model.SignInfo { return pbToSignData(s) }
